@@ -34,9 +34,9 @@ for d in sorted(glob.glob(os.path.join(ROOT, "seeded", "C*_*"))):
     summ = (meta.get("summary") or "").replace("|", "/").replace("\n", " ")[:230]
     needs = (str(meta.get("needs") or "")).replace("|", "/").replace("\n", " ")[:160]
     rows.append("| %s | %s | %s | %s | %s | %s |" % (name, summ, needs, conf,
-                (("**caught** by " + ", ".join(caught_by) + (" (failing input)" if with_input else " (no failing input)")) if caught else ("not run" if not out else "**missed**"))
+                (("**caught** by " + ", ".join(caught_by) + (" (failing input)" if with_input else " (no failing input)")) if caught else ("not run" if not out else ("no alarm (see note)" if meta.get("note") else "**missed**")))
                 + (" [INFRA?]" if infra else ""),
-                (what[0][:200].replace("|", "/") if what else "")))
+                ((what[0][:200].replace("|", "/") if what else "") + ((" NOTE: " + meta["note"]) if meta.get("note") else ""))))
 print("| seed | change | needs | confirmed (suite passes / demo fails with / passes without) | result of `bin/fv check` | first report |")
 print("|---|---|---|---|---|---|")
 print("\n".join(rows))
